@@ -89,7 +89,7 @@ func NewCredentialBuilder(pk *gabikeys.PublicKey, context, secret *big.Int, nonc
 	mUser := make(map[int]*big.Int, len(blind))
 	for _, i := range blind {
 		// the index counts attributes, the secret key at base 0 not included
-		if i < 0 || i+1 >= len(pk.R) {
+		if i < 0 || i >= len(pk.R)-1 {
 			return nil, errors.New("random blind attribute index out of range")
 		}
 		mUser[i+1], err = common.RandomBigInt(pk.Params.Lm - 1)
